@@ -112,6 +112,12 @@ func parseSSE(raw []byte) (*parsed, string) {
 				id, _ := cb["id"].(string)
 				nm, _ := cb["name"].(string)
 				p.calls = append(p.calls, call{id: id, name: nm})
+				// the block the API opens is a whole tool_use block with an empty input, which the deltas then fill
+				if _, ok := cb["input"].(map[string]any); !ok {
+					return p, fmt.Sprintf("event %d: content_block_start of a tool_use block without an object member \"input\"", n)
+				}
+			} else if _, ok := cb["text"].(string); !ok {
+				return p, fmt.Sprintf("event %d: content_block_start of a text block without a string member \"text\"", n)
 			}
 			state = sOpen
 		case "content_block_delta":
@@ -357,13 +363,57 @@ func argsEq(a, b string) bool {
 	if a == b {
 		return true
 	}
-	var x, y any
-	if json.Unmarshal([]byte(orEmpty(a)), &x) == nil && json.Unmarshal([]byte(orEmpty(b)), &y) == nil {
+	// numbers are compared as written (json.Number): an integer above 2^53 that went through a float64 is another number
+	dec := func(s string) (any, bool) {
+		d := json.NewDecoder(strings.NewReader(orEmpty(s)))
+		d.UseNumber()
+		var v any
+		return v, d.Decode(&v) == nil
+	}
+	x, ok1 := dec(a)
+	y, ok2 := dec(b)
+	if ok1 && ok2 {
 		xb, _ := json.Marshal(x)
 		yb, _ := json.Marshal(y)
 		return bytes.Equal(xb, yb)
 	}
 	return false
+}
+
+// blocksWellFormed: the members the Anthropic API documents as always present in a content block of a message -
+// `text` in a text block; `id`, `name` and an object `input` in a tool_use block (an SDK's typed model has no default for them).
+func blocksWellFormed(msg []byte) string {
+	var m struct {
+		Content []map[string]json.RawMessage `json:"content"`
+	}
+	if err := json.Unmarshal(msg, &m); err != nil {
+		return "message is not JSON: " + err.Error()
+	}
+	for i, b := range m.Content {
+		var typ string
+		json.Unmarshal(b["type"], &typ)
+		switch typ {
+		case "text":
+			var s string
+			if raw, ok := b["text"]; !ok || json.Unmarshal(raw, &s) != nil {
+				return fmt.Sprintf("content[%d] is a text block without a string member \"text\"", i)
+			}
+		case "tool_use":
+			for _, k := range []string{"id", "name"} {
+				var s string
+				if raw, ok := b[k]; !ok || json.Unmarshal(raw, &s) != nil {
+					return fmt.Sprintf("content[%d] is a tool_use block without a string member %q", i, k)
+				}
+			}
+			var o map[string]json.RawMessage
+			if raw, ok := b["input"]; !ok || json.Unmarshal(raw, &o) != nil || o == nil {
+				return fmt.Sprintf("content[%d] is a tool_use block without an object member \"input\"", i)
+			}
+		default:
+			return fmt.Sprintf("content[%d] has type %q", i, typ)
+		}
+	}
+	return ""
 }
 
 func orEmpty(s string) string {
@@ -530,7 +580,7 @@ func judge(part string, seq []ev, input string, chunk int, strict bool, x expect
 			Text  string         `json:"text"`
 			ID    string         `json:"id"`
 			Name  string         `json:"name"`
-			Input map[string]any `json:"input"`
+			Input json.RawMessage `json:"input"`
 		} `json:"content"`
 		StopReason string `json:"stop_reason"`
 		Usage      struct {
@@ -539,14 +589,17 @@ func judge(part string, seq []ev, input string, chunk int, strict bool, x expect
 		} `json:"usage"`
 	}
 	json.Unmarshal(bb, &bd)
+	if bad := blocksWellFormed(bb); bad != "" {
+		violate("buffered-message-malformed", map[string]any{"part": part}, desc+"\n"+bad+"\nmessage: "+trunc(string(bb), 800), rp)
+		return
+	}
 	btext := ""
 	var bcalls []call
 	for _, c := range bd.Content {
 		if c.Type == "text" {
 			btext += c.Text
 		} else if c.Type == "tool_use" {
-			ib, _ := json.Marshal(c.Input)
-			bcalls = append(bcalls, call{c.ID, c.Name, string(ib)})
+			bcalls = append(bcalls, call{c.ID, c.Name, string(c.Input)})
 		}
 	}
 	agree := btext == p.text && bd.StopReason == p.stopReason && bd.Usage.In == p.inTok && bd.Usage.Out == p.outTok && len(bcalls) == len(p.calls)
@@ -723,7 +776,7 @@ func e2() {
 	// non-printable code point beyond the BMP, quotes and backslashes
 	texts := []string{"", "a", "héllo🌍", "l1\nl2", "\x1b[m\x00\x1f\x7f", "\"\\\U000e0001\u2028"}
 	big := `{"blob":"` + strings.Repeat("z", 4096) + `"}`
-	argSets := []string{`{}`, `{"a":{"b":[1,null,"é"]},"c":-0.5}`, big}
+	argSets := []string{`{}`, `{"a":{"b":[1,null,"é"]},"c":-0.5,"row":9007199254740993}`, big}
 	maxCalls := 2
 	if report.Thorough() {
 		maxCalls = 4
